@@ -724,6 +724,10 @@ func gen(r *vh.Rand, tier string) []Scn {
 // ---------------------------------------------------------------- child / parent
 
 func childMain(file string, from int, seed uint64) {
+	if !c2.VerifC16ProbeSelfTest() {
+		fmt.Fprintln(os.Stderr, "channel-header probe self-test failed (runtime.hchan layout changed?)")
+		os.Exit(3)
+	}
 	b, err := os.ReadFile(file)
 	if err != nil {
 		panic(err)
